@@ -177,7 +177,7 @@ class BatteryStatusTracker(ComponentStatusTracker, BackgroundService):
             and self._is_capacity_present(bat_data)
         )
         self._battery.last_msg_timestamp = bat_data.timestamp
-        self._battery.data_recv_timer.reset()
+        self._reset_data_recv_timer(self._battery)
 
     def _handle_status_inverter(self, inv_data: InverterData) -> None:
         self._inverter.last_msg_correct = (
@@ -186,7 +186,24 @@ class BatteryStatusTracker(ComponentStatusTracker, BackgroundService):
             and self._no_critical_error(inv_data)
         )
         self._inverter.last_msg_timestamp = inv_data.timestamp
-        self._inverter.data_recv_timer.reset()
+        self._reset_data_recv_timer(self._inverter)
+
+    def _reset_data_recv_timer(self, stream: _ComponentStreamStatus) -> None:
+        """Make the timer trigger when the last message gets older than the max data age.
+
+        The age of a message counts from its own timestamp, so a message that is
+        already some seconds old when it is received, has only the rest left.
+
+        Args:
+            stream: The stream status with the timer to reset.
+        """
+        remaining = self._max_data_age - (
+            datetime.now(tz=timezone.utc) - stream.last_msg_timestamp
+        )
+        if not timedelta(0) < remaining < self._max_data_age:
+            # The message is outdated already, or its timestamp is not in the past.
+            remaining = self._max_data_age
+        stream.data_recv_timer.reset(interval=remaining)
 
     def _handle_status_set_power_result(self, result: SetPowerResult) -> None:
         if self.battery_id in result.succeeded:
@@ -290,6 +307,7 @@ class BatteryStatusTracker(ComponentStatusTracker, BackgroundService):
                             # late, so we can ignore it.
                             continue
                         self._handle_status_battery_timer()
+                        battery_timer.reset(interval=self._max_data_age)
 
                     elif selected_from(selected, inverter_timer):
                         if (
@@ -301,6 +319,7 @@ class BatteryStatusTracker(ComponentStatusTracker, BackgroundService):
                             # late, so we can ignore it.
                             continue
                         self._handle_status_inverter_timer()
+                        inverter_timer.reset(interval=self._max_data_age)
 
                     else:
                         _logger.error("Unknown message returned from select")
